@@ -1,6 +1,78 @@
-//! Further extension ops (added per property as the model grows).
+//! `f*` ops: decoded records, encoded by the harness's own encoder and loaded with `from_bytes`.
+use crate::enc::{encode, RawRec, RawTerm};
 use crate::interp::Interp;
+use crate::proto::*;
+use hpo::Ontology;
+use std::panic::{catch_unwind, AssertUnwindSafe};
 
-pub fn exec(_it: &mut Interp, _toks: &[&str], _out: &mut Vec<String>) -> bool {
-    false
+pub fn kind_idx(k: &str) -> Option<usize> {
+    match k {
+        "g" => Some(0),
+        "o" => Some(1),
+        "r" => Some(2),
+        _ => None,
+    }
+}
+
+/// `Ontology::from_bytes` under catch_unwind: "r ok" / "r err" / "r panic"
+pub fn load_bytes(it: &mut Interp, bytes: &[u8], slot: u32, out: &mut Vec<String>) {
+    match catch_unwind(AssertUnwindSafe(|| Ontology::from_bytes(bytes))) {
+        Ok(Ok(o)) => {
+            it.slots.insert(slot, o);
+            out.push("r ok".to_string());
+        }
+        Ok(Err(_)) => out.push("r err".to_string()),
+        Err(_) => out.push("r panic".to_string()),
+    }
+}
+
+pub fn exec(it: &mut Interp, toks: &[&str], out: &mut Vec<String>) -> bool {
+    match toks {
+        ["fnew"] => {
+            it.ext.facts = Default::default();
+            true
+        }
+        ["fversion", y, m, d] => {
+            let (Ok(y), Ok(m), Ok(d)) = (y.parse::<u16>(), m.parse::<u8>(), d.parse::<u8>()) else { return false };
+            it.ext.facts.version = (y, m, d);
+            true
+        }
+        ["fterm", id, nm, obs, repl] => {
+            let (Ok(id), Some(nm)) = (id.parse::<u32>(), unname(nm)) else { return false };
+            let replacement = if *repl == "-" { None } else { repl.parse::<u32>().ok() };
+            it.ext.facts.terms.push(RawTerm { id, name: nm, obsolete: *obs == "1", replacement });
+            true
+        }
+        ["fparent", p, c] => {
+            let (Ok(p), Ok(c)) = (p.parse::<u32>(), c.parse::<u32>()) else { return false };
+            if let Some(r) = it.ext.facts.parents.iter_mut().find(|r| r.0 == c) {
+                r.1.push(p);
+            } else {
+                it.ext.facts.parents.push((c, vec![p]));
+            }
+            true
+        }
+        ["frec", k, id, nm] => {
+            let (Some(k), Ok(id), Some(nm)) = (kind_idx(k), id.parse::<u32>(), unname(nm)) else { return false };
+            it.ext.facts.recs[k].push(RawRec { id, name: nm, terms: vec![] });
+            true
+        }
+        ["flink", k, rid, t] => {
+            let (Some(k), Ok(rid), Ok(t)) = (kind_idx(k), rid.parse::<u32>(), t.parse::<u32>()) else { return false };
+            for r in it.ext.facts.recs[k].iter_mut().filter(|r| r.id == rid) {
+                r.terms.push(t);
+            }
+            true
+        }
+        ["fload", v, slot] => {
+            let (Ok(v), Ok(slot)) = (v.parse::<u8>(), slot.parse::<u32>()) else { return false };
+            if !(1..=3).contains(&v) {
+                return false;
+            }
+            let bytes = encode(&it.ext.facts, v);
+            load_bytes(it, &bytes, slot, out);
+            true
+        }
+        _ => crate::ext4::exec(it, toks, out),
+    }
 }
